@@ -255,6 +255,14 @@ class Oracle:
         except Exception:
             self.p.kill()
 
+def gen_const(name):
+    """value of a generated constant (coq/Gen/Consts.v, written by tools/gen_consts.py from $VERIF_REPO)"""
+    import re
+    m = re.search(r"^Definition %s : Z := (-?\d+)\.$" % re.escape(name), open(os.path.join(COQ, "Gen", "Consts.v")).read(), re.M)
+    if not m:
+        raise RuntimeError("generated constant %s not found" % name)
+    return int(m.group(1))
+
 def hx(b):
     return b.hex() if b else "-"
 def md5(b):
